@@ -26,6 +26,7 @@ RULE = (
     "and Coord objects of every returned AST are disjoint from those of all earlier ASTs. Non-trivial: the history contains a "
     "failing parse that left >= 1 open scope after declaring a typedef, followed by a parse whose text uses that name; "
     "distinct by hash of the history."
+    ' Bursts: one of 13 texts failing deep inside a nesting (parentheses, braces, brackets, declarators, scopes with typedefs) 2 - 9 times in a row, then a witness text that must still parse as on a fresh instance. '
 )
 ASSUMPTIONS = ["the reference for every parse is a private copy of the pycparser package created for that one call; a fresh instance inside the checking process is compared with it on every fourth call"]
 QUARANTINE = ()
@@ -56,6 +57,20 @@ HOLES = [
     ("mem", ("cl", _TNS, ("il", [([], ("ie", ("const", "1", "int"))), ([], ("ie", ("const", "2", "int")))], False)), ".", "a"),
     ("sizeoft", _TN), ("pre", "sizeof", ("cl", _TN, ("il", [([], ("ie", ("id", "y")))], False))), ("bin", "+", ("id", "y"), ("const", "1", "int")),
     ("cast", ("tn", [("t", "long")], [("arr", [], None, ("const", "5", "int"))]), ("id", "z")), ("call", ("id", "g"), [("id", "y")]),
+]
+
+
+# texts that fail deep inside some nesting (parentheses, brackets, braces, declarators,
+# initializer lists, argument lists, scopes with typedefs), for parse_burst
+BURST = [
+    "int x = " + "(" * 60 + "1 + ;", "int y = " + "(" * 100 + "2 ]", "int a[] = " + "{ " * 80 + "1, @", "int v = f" + "(g" * 70 + "(1, ;",
+    "void f(void) { " + "{ " * 60 + "x = (1 + ; ", "int " + "(*" * 50 + "p" + ")" * 20 + ";", "int q = a" + "[b" * 70 + "[0 }",
+    "typedef int T; void f(void) { " + "{ typedef int T; T t; " * 30 + "T ( ;", "struct S { " + "struct { " * 50 + "int m; @", "int z = " + "1 ? " * 60 + "2 : ;",
+    "void f(void) { " + "if (1) " * 60 + "x = ((( ;", "int s = sizeof" + "(int[" * 40 + "1 ;", "int c = " + "(int)" * 80 + "(@",
+]
+WITNESS = [
+    "int f(int a) { return (a + 1) * ((2)); }", "typedef int T; T * x; void f(void) { T * y; { int T; T * y; } (T)(1); }", "int a[2][2] = { { 1, 2 }, { (3), 4 } };",
+    "int v = f(g(1), (h)(2, 3))[4]; int (*p)(int (*)(void));", "struct S { struct { int m; } n; } s = { { 1 } }; int z = 1 ? 2 : (3 ? 4 : 5);", "void f(void) { if (1) { x = ((1)); } else { int a[sizeof(int[2])]; } }",
 ]
 
 
@@ -228,6 +243,14 @@ class Machine(RuleBasedStateMachine):
     @rule(i=st.integers(0, len(POOL) - 1), fname=st.sampled_from(["", "a.c", "b/c.h"]))
     def parse_pool(self, i, fname):
         self.do_parse(POOL[i], fname, "pool")
+
+    @rule(i=st.integers(0, len(BURST) - 1), k=st.integers(2, 9), w=st.integers(0, len(WITNESS) - 1))
+    def parse_burst(self, i, k, w):
+        """'any number of times': the same failing text k times in a row (whatever
+        a failure leaves behind adds up), then a text that must still parse"""
+        for _ in range(k):
+            self.do_parse(BURST[i], "a.c", "burst")
+        self.do_parse(WITNESS[w], "a.c", "witness")
 
     @rule(data=st.data())
     def parse_soup(self, data):
